@@ -171,7 +171,7 @@ def run_shard(spec, rep):
             mix = gen.synth_mixture(rng)
             mdesc = gen.describe_mixture(mix)
         model = "NRTL" if zero else rng.choice(["NRTL", "UNIQUAC"])
-        T = rng.uniform(273, 400)
+        T = gen.pick_temperature(rng, 273, 400)  # a share of the cases shares few temperatures (and all synthetic mixtures share one name)
         v = rng.random()
         if v < 0.5:
             x = rng.uniform(0.02, 0.98)
